@@ -600,6 +600,8 @@ static Plan null_plan(const Plan &p) {
 }
 
 static const Ref &reference(const Plan &p) {
+	static const Ref none;
+	if (under_memcheck()) return none;  // that worker's verdict does not use a reference run
 	uint64_t k = workload_key(p);
 	auto it = g_refs.find(k);
 	if (it != g_refs.end()) return it->second;
@@ -750,6 +752,11 @@ static const Space &space(const std::string &name) {
 	if (it != g_spaces.end()) return it->second;
 	Space s;
 	s.name = name;
+	if (name == "memcheck") {
+		// every corpus/feature file in its own mode and with -E, every preprocessed source of cproc itself, and the smallest knob of every stress family
+		s.total = g_corpus.size() * 2 + g_own.size() + stress_fams().size();
+		return g_spaces[name] = s;
+	}
 	if (name == "stress") {
 		// every (family, knob) pair of the stress family once, fault-free: the largest knobs are too rare under sampling
 		for (auto &f : stress_fams()) { s.total += f.knobs.size(); s.cum.push_back(s.total); }
@@ -762,6 +769,29 @@ static const Space &space(const std::string &name) {
 static Plan space_plan(const std::string &name, uint64_t index, const std::string &prop) {
 	const Space &s = space(name);
 	index %= s.total ? s.total : 1;
+	if (name == "memcheck") {
+		Plan p;
+		Rng r(run_seed(g_space_seed, "memcheck", index));
+		p.prop = prop;
+		if (index < g_corpus.size() * 2) {
+			set_corpus(p, (size_t)(index / 2), r, false);
+			if (index & 1) { if (p.pponly) p.target = 1 + (p.target % 3); else p.pponly = true; }
+		} else if (index < g_corpus.size() * 2 + g_own.size()) {
+			const CorpusEntry &c = g_own[index - g_corpus.size() * 2];
+			p.files.push_back({c.rel, c.source, c.data});
+			p.target = 1 + (int)(index % 3);
+		} else {
+			const StressFam &f = stress_fams()[index - g_corpus.size() * 2 - g_own.size()];
+			long knob = f.knobs[0];
+			p.files.push_back({std::string("stress/") + f.name + ".c", std::string("stress:") + f.name + ":" + std::to_string(knob), stress_input(f.name, knob)});
+			p.target = 1 + (int)(index % 3);
+			p.pponly = f.pponly;
+		}
+		// definedness does not depend on the fill pattern; placement, reuse and chunking change which bytes are fresh
+		perturb_schedule(p, r, (index / 2) % 3 == 0);
+		p.label = "space:memcheck";
+		return p;
+	}
 	size_t ci = (size_t)(std::upper_bound(s.cum.begin(), s.cum.end(), index) - s.cum.begin());
 	uint64_t off = index - (ci ? s.cum[ci - 1] : 0);
 	if (name == "stress") {
@@ -839,6 +869,17 @@ static Verdict evaluate(const Plan &p, const Outcome &o, const Ref &ref, const s
 	Verdict v;
 	const Res &r = o.r;
 	if (r.kind == K_HARNESS) { v.cls = "harness"; v.detail = r.msg; v.sig = "harness"; return v; }
+	if (under_memcheck()) {
+		// a worker started under valgrind decides one thing only: C20's "no output byte or branch depends on
+		// uninitialised memory".  Everything else (status, output, termination) is decided by the native workers,
+		// so nothing that valgrind's own environment changes (stack size, speed) can raise an alarm here.
+		if (p.prop == "C20" && r.vg_errors) {
+			v.cls = "C20/uninitialised-memory";
+			v.sig = "memcheck " + o.vg_sig;
+			v.detail = std::to_string(r.vg_errors) + " memcheck error(s); first: " + o.vg_text;
+		}
+		return v;
+	}
 	bool abnormal = r.kind != K_EXIT || (r.status != 0 && r.status != 1 && r.status != 2);
 	bool same_out = r.kind == K_EXIT && ref.r.kind == K_EXIT && r.sink_len == ref.r.sink_len && r.sink_hash == ref.r.sink_hash && r.stray_len == 0;
 	if (p.prop == "C19") {
@@ -1118,6 +1159,7 @@ int main(int argc, char **argv) {
 		       o.signature.c_str(), (unsigned long long)o.r.steps, o.r.nalloc, o.r.nread, o.r.nwrite, o.r.fired, hex64(o.r.ev_hash).c_str(), o.r.msg);
 		if (!o.report.empty() && opt.count("log")) printf("%s\n", o.report.c_str());
 		if (opt.count("dump")) fwrite(o.sink.data(), 1, o.sink.size(), stdout);
+		if (j.gets("build") == "memcheck" && !under_memcheck()) { printf("this replay file describes a memcheck finding: replay it with bin/check C20 --replay (which starts the worker under valgrind)\n"); return 2; }
 		if (v.cls.empty()) return 0;
 		std::string want_cls = j.gets("class"), want_sig = j.gets("signature"), want_hash = j.gets("event_hash");
 		if (!want_cls.empty() && (want_cls != v.cls || want_sig != v.sig || (!sanitized_build() && !want_hash.empty() && want_hash != hex64(o.r.ev_hash)))) {
@@ -1231,13 +1273,15 @@ int main(int argc, char **argv) {
 		Json rep = Json::obj();
 		rep.set("property", prop).set("class", vm.cls).set("signature", vm.sig).set("detail", vm.detail).set("event_hash", hex64(om.r.ev_hash));
 		rep.set("outcome", om.signature).set("stderr", om.r.msg).set("seed", (unsigned long long)seed).set("index", (unsigned long long)index).set("shrink_runs", g_shrink_runs);
-		rep.set("build", sanitized_build() ? "sanitized" : "plain");
+		rep.set("build", sanitized_build() ? "sanitized" : under_memcheck() ? "memcheck" : "plain");
 		rep.set("plan", min.to_json(false));
 		rep.set("original_plan", p.to_json(false));
 		if (system(("mkdir -p " + replay_dir).c_str()) != 0) {}
-		std::string path = replay_dir + "/" + prop + "-" + hex64(hash_str(vm.cls + vm.sig)).substr(0, 12) + (sanitized_build() ? "-san" : "") + ".json";
+		std::string path = replay_dir + "/" + prop + "-" + hex64(hash_str(vm.cls + vm.sig)).substr(0, 12) + (sanitized_build() ? "-san" : under_memcheck() ? "-memcheck" : "") + ".json";
 		write_file(path, rep.str() + "\n");
-		std::string rc = std::string(selfpath) + " replay " + path + " --repo " + g_repo + (g_featdir.empty() ? "" : " --features " + g_featdir) + (g_owndir.empty() ? "" : " --own " + g_owndir) + " >/dev/null 2>&1";
+		// a worker running under valgrind replays under valgrind: same command prefix, handed down by the check
+		std::string vgpre = under_memcheck() && getenv("SIMB_VG_PREFIX") ? std::string(getenv("SIMB_VG_PREFIX")) + " " : "";
+		std::string rc = vgpre + std::string(selfpath) + " replay " + path + " --repo " + g_repo + (g_featdir.empty() ? "" : " --features " + g_featdir) + (g_owndir.empty() ? "" : " --own " + g_owndir) + " >/dev/null 2>&1";
 		int rr = system(rc.c_str());
 		if (!(WIFEXITED(rr) && WEXITSTATUS(rr) == 1)) {
 			if (sanitized_build()) {
